@@ -6,6 +6,7 @@ package main
 import (
 	"fmt"
 	"go/types"
+	"math"
 	"sort"
 	"strconv"
 	"strings"
@@ -153,6 +154,35 @@ func init() {
 	models["(time.Time).UnixNano"] = func(p *Path, fn *ssa.Function, a []Value) Value { return int64(0) }
 	models["math/rand.Seed"] = func(p *Path, fn *ssa.Function, a []Value) Value { return nil }
 	models["math/rand.Intn"] = modelRandIntn
+	models["math.Log"] = modelLog
+}
+
+// modelLog: math.Log on a symbolic real is an uninterpreted, strictly monotone function.
+func modelLog(p *Path, fn *ssa.Function, a []Value) Value {
+	if f, ok := a[0].(float64); ok {
+		return math.Log(f)
+	}
+	if !p.realMode {
+		panic(unsupported("math.Log of a symbolic float outside real mode"))
+	}
+	tt := p.tt()
+	x := a[0].(*Term)
+	y := tt.UF("log_real", RealSort, x)
+	p.stubsHit["math.Log (uninterpreted, strictly monotone, over the reals)"] = true
+	for _, prev := range p.logApps {
+		if prev == y {
+			return y
+		}
+	}
+	for _, prev := range p.logApps {
+		px := prev.Args[0]
+		// strict monotonicity, instantiated for every pair of applications on the path
+		p.pc = append(p.pc, tt.Implies(tt.Cmp(OpRLt, px, x), tt.Cmp(OpRLt, prev, y)))
+		p.pc = append(p.pc, tt.Implies(tt.Cmp(OpRLt, x, px), tt.Cmp(OpRLt, y, prev)))
+	}
+	p.logApps = append(p.logApps, y)
+	p.model = nil
+	return y
 }
 
 // errVal is an error created by errors.New with a possibly symbolic message.
